@@ -15,35 +15,6 @@ def _nontrivial(st):
   return None
 
 
-def apalache_inductive(rep):
-  """Symbolic strengthening: spec/apalache/ScopeStackInd.tla - IndInv holds initially and is preserved by every
-  step from *arbitrary* (not only reachable) states with <= 5 open blocks; IndInv implies Restore."""
-  import os, shutil, subprocess, time
-  from ginverif import tlc
-  src = os.path.join(tlc.SPEC_DIR, 'apalache', 'ScopeStackInd.tla')
-  results = {}
-  for name, args in (('init_implies_inv', ['--init=Init', '--inv=IndInv', '--length=0']),
-                     ('inv_is_inductive', ['--init=IndInit', '--inv=IndInv', '--length=1']),
-                     ('inv_implies_restore', ['--init=IndInit', '--inv=Restore', '--length=1'])):
-    wd = tlc.scratch('ginverif_apa_')
-    try:
-      shutil.copy(src, wd)
-      t0 = time.time()
-      try:
-        p = subprocess.run(['apalache-mc', 'check'] + args + ['--out-dir=' + os.path.join(wd, 'out'), 'ScopeStackInd.tla'],
-                           cwd=wd, stdout=subprocess.PIPE, stderr=subprocess.STDOUT, text=True, timeout=240)
-        out = p.stdout
-      except (subprocess.TimeoutExpired, OSError) as e:
-        out = 'not run: %s' % type(e).__name__
-      verdict = 'OK' if 'EXITCODE: OK' in out else ('COUNTEREXAMPLE' if 'EXITCODE: ERROR (12)' in out else 'not discharged')
-      results[name] = dict(verdict=verdict, wall_s=round(time.time() - t0, 1))
-      if verdict == 'COUNTEREXAMPLE':
-        raise tlc.TLCError('Apalache found a counterexample to %s:\n%s' % (name, out[-2000:]))
-    finally:
-      shutil.rmtree(wd, ignore_errors=True)
-  rep.extra['apalache_inductive_scope_stack'] = results
-
-
 def run(tier):
   rep = core.Report('C09', tier)
   rep.rule = ('TLC enumerates every sequence of scope entries (name, a/b shorthand, list, None/"", invalid) and '
@@ -56,7 +27,10 @@ def run(tier):
   cc.model_check(rep, 'MC_Scopes_quick')
   n = 200 if tier == 'quick' else 4000
   cc.replay_behaviours(rep, 'GinCore_Sim_scopes', num=n, depth=16, nontrivial=_nontrivial, generate=n * 6)
-  apalache_inductive(rep)
+  cc.apalache_inductive(rep, 'ScopeStackInd', [('init_implies_inv', ['--init=Init', '--inv=IndInv', '--length=0']),
+                                                ('inv_is_inductive', ['--init=IndInit', '--inv=IndInv', '--length=1']),
+                                                ('inv_implies_restore', ['--init=IndInit', '--inv=Restore', '--length=1'])],
+                        'apalache_inductive_scope_stack')
   try:
     from ginverif.checks import c09_threads
     c09_threads.run_into(rep, tier)
